@@ -418,6 +418,38 @@ func c11ExtFields(c *Ctx, pkImg, pkV1 *packages.Package) {
 	out := c11ProtoImageFileBuilder(p)
 	in := p.Func(pkgImage, "NewImageForProto")
 	conv := c11ImageFileToProto(p, out)
+	// the per-file decoding may live in a function of its own that NewImageForProto calls for every file: it is then
+	// that function which reads the extension and calls NewImageFile
+	if in != nil && in.Decl.Body != nil {
+		callsNIF := func(fr *FuncRef) bool {
+			found := false
+			ast.Inspect(fr.Decl.Body, func(n ast.Node) bool {
+				if call, ok := n.(*ast.CallExpr); ok {
+					if fn := Callee(fr.Info(), call); fn != nil && fn.Name() == "NewImageFile" {
+						found = true
+					}
+				}
+				return true
+			})
+			return found
+		}
+		if !callsNIF(in) {
+			var helper *FuncRef
+			ast.Inspect(in.Decl.Body, func(n ast.Node) bool {
+				if call, ok := n.(*ast.CallExpr); ok {
+					if fn := Callee(in.Info(), call); fn != nil && fn.Pkg() == pkImg.Types {
+						if h := p.DeclOf(fn); h != nil && h.Decl.Body != nil && callsNIF(h) {
+							helper = h
+						}
+					}
+				}
+				return true
+			})
+			if helper != nil {
+				in = helper
+			}
+		}
+	}
 	if out == nil || in == nil || conv == nil {
 		c.Fail("EXT-FIELDS", "anchor", token.NoPos, "fileDescriptorProtoToProtoImageFile / NewImageForProto / imageFileToProtoImageFile not found")
 		return
